@@ -261,6 +261,8 @@ def tasks(tier, seed):
                         continue
                     if sk.name == 'l4-actions' and (ra or rn) and (slack != 'exact' if tier == 'quick' else (ra and rn and slack == 'slack')):
                         continue      # orderings x value orderings: path explosion; random orders are covered with the exact heuristic and on l3
+                    if sk.name == 'l4-branch' and ra and (rn or slack == 'slack'):
+                        continue      # > 15000 paths / 600 s each at thorough depth (random action order x value orderings); covered on the smaller skeletons
                     T.append(Task('plan_on/%s/%s-%s/%s' % (sk.name, 'ra' if ra else 'oa', 'rn' if rn else 'on', slack), h_lao, (sk, ra, rn, slack), tier='B',
                                   max_paths=15000, deadline_s=600, expect_fail=('mustfail:initial-value-is-the-heuristic',)))
         sts = list(sk.states)
